@@ -206,11 +206,31 @@ impl<S: BuildHasher + Clone + 'static> ExpirationMap<S> {
 
     pub fn try_cleanup(&self, now: Time) -> Result<Option<HashMap<u64, u64, S>>, CacheError> {
         let bucket_num = cleanup_bucket(now);
-        Ok(self
-            .buckets
-            .write()
-            .remove(&bucket_num)
-            .map(|bucket| bucket.map))
+        let mut m = self.buckets.write();
+
+        // Every bucket up to the cleanup bucket is due: ticks can be further apart
+        // than one bucket, so older buckets may not have been visited yet.
+        let mut due = Vec::new();
+        for (b, _) in m.iter() {
+            if *b <= bucket_num {
+                due.push(*b);
+            }
+        }
+
+        if due.is_empty() {
+            return Ok(None);
+        }
+
+        let mut items = HashMap::with_hasher(self.hasher.clone());
+        for b in due.iter() {
+            if let Some(bucket) = m.remove(b) {
+                for (k, conflict) in bucket.map.iter() {
+                    items.insert(*k, *conflict);
+                }
+            }
+        }
+
+        Ok(Some(items))
     }
 
     pub fn hasher(&self) -> S {
